@@ -431,6 +431,11 @@ static bool convert_pp_int(Token *tok) {
       ty = ty_int;
   }
 
+  // A decimal constant without U suffix is never unsigned, so from
+  // 2^63 on no type of C11 6.4.4.1p5 can hold it.
+  if (base == 10 && !u && val < 0)
+    warn_tok(tok, "integer constant is too large for type 'long'");
+
   tok->kind = TK_NUM;
   tok->val = val;
   tok->ty = ty;
